@@ -30,12 +30,12 @@ CHECKS = {
             "DESIGN.md §4 C02"),
     "C05": ("exploration",
             "property-based scenario testing (rapid): N concurrent writers on one connection released by a barrier, strict incremental parse of the received stream + multiset/per-writer-order oracle; same scenarios under the Go race detector",
-            "Generated scenarios (2..300 writers, frame sizes around the 4096-byte bufio boundary and up to 70 KB, plain/TLS/StartTLS, eager/late/slow reader, GOMAXPROCS 1..16) run against a live server; the client parses the byte stream strictly with the independent codec (any torn or merged frame is a parse or identity error), compares the multiset of frames with the writes that returned nil and checks per-writer order. The harness owns the start of the race (barrier) but not the Go scheduler: found violations are real, absence is not shown.",
+            "Generated scenarios (2..300 writers, frame sizes around the 4096-byte bufio boundary and up to 70 KB, or bursts of up to 256 writers with tiny frames repeated on the same connection; plain/TLS/StartTLS, eager/late/slow reader, GOMAXPROCS 1..16) run against a live server; the client parses the byte stream strictly with the independent codec (any torn or merged frame is a parse or identity error), compares the multiset of frames with the writes that returned nil and checks per-writer order. The harness owns the start of the race (barrier) but not the Go scheduler: found violations are real, absence is not shown.",
             "trusts the independent stream parser and the race detector; a per-ResponseWriter bufio.Writer would not be flagged (kernel/tls write locks keep frames whole), see DESIGN.md",
             "DESIGN.md §4 C05"),
     "C06": ("exploration",
             "property-based scenario testing (rapid): pipelines with a generated wait-for-later-request dependency graph; completion + numbering oracle, deadlock verdict backed by a stable goroutine census",
-            "1..8 connections pipeline 1..256 requests whose handlers block until a LATER request (same connection, incl. the fully reversed chain, or another connection) has entered its handler; a correct dispatcher always completes, a serial or globally locked one deadlocks. Request.ID must equal the arrival position and ConnectionID must be stable per connection and distinct across connections. A missed bound counts only with two identical goroutine censuses 0.5 s apart (otherwise inconclusive).",
+            "1..8 connections pipeline 1..256 requests (one write, or drip-fed one write per request) whose handlers block until a LATER request (same connection: random, the fully reversed chain, or all waiting for the last one so that up to 255 handlers of one connection are blocked at once; or another connection) has entered its handler; a correct dispatcher always completes, a serial or globally locked one deadlocks. Request.ID must equal the arrival position and ConnectionID must be stable per connection and distinct across connections. A missed bound counts only with two identical goroutine censuses 0.5 s apart (otherwise inconclusive).",
             "liveness is decided as a bounded wait (15 s against a normal few ms) plus stable-census evidence",
             "DESIGN.md §4 C06"),
     "C07": ("fault_enumeration",
@@ -50,7 +50,7 @@ CHECKS = {
             "DESIGN.md §4 C08"),
     "C09": ("exploration",
             "stateful model-based testing (rapid action sequences over one long-lived server) + a 10^5-connection lifetime run; model = tag -> ConnectionID map",
-            "Open / request / long session / concurrent burst / close / reopen sequences with up to 64 connections open at once are run against one server; every request of a connection must report the same positive ConnectionID, IDs must be pairwise different over the server's whole life, and OnClose must deliver exactly the closed connection's ID once. The lifetime part opens up to 10^5 connections from 16 goroutines against one server.",
+            "Open / request / long session / StartTLS upgrade / concurrent burst / close / reopen sequences with up to 64 connections open at once are run against one server; every request of a connection must report the same positive ConnectionID, IDs must be pairwise different over the server's whole life, and OnClose must deliver exactly the closed connection's ID once. The lifetime part opens up to 10^5 connections from 16 goroutines against one server; a worker-process part provokes accept failures (descriptor exhaustion) and checks the IDs of the connections accepted afterwards.",
             "client-chosen tag travels in the message ID; OnClose is waited for after every close so the model and the server stay in step",
             "DESIGN.md §4 C09"),
     "C10": ("exploration",
@@ -60,7 +60,7 @@ CHECKS = {
             "DESIGN.md §4 C10"),
     "C11": ("fault_enumeration",
             "fault enumeration in worker child processes: every single connection state and every pair of states at Stop time (with/without concurrent second Stop), plus rapid-generated multisets of up to 16 connections; bounded-wait oracle backed by a stable goroutine census",
-            "Connection states at the moment Stop is called - idle, idle after served requests, first k bytes of a frame sent, TCP connected to a TLS listener with no / partial ClientHello, idle inside a TLS session, pipelining as fast as it can, requesting a 13 MB answer and never reading - are enumerated completely for singles and pairs and generated beyond; clients never close by themselves. Stop must return and Run must return nil within 5 s (a correct server needs at most the 500 ms write grace); a miss is a violation only with two identical goroutine censuses 0.5 s apart, otherwise inconclusive.",
+            "Connection states at the moment Stop is called - idle, idle after served requests, first k bytes of a frame sent, TCP connected to a TLS listener with no / partial ClientHello, idle inside a TLS session, pipelining as fast as it can, requesting a 13 MB answer and never reading (alone, followed by an Unbind, together with a StartTLS request, or five such requests pipelined), StartTLS answered but handshake never started; with and without one-hour read/write timeouts configured - are enumerated completely for singles and pairs and generated beyond; clients never close by themselves. Stop must return and Run must return nil within 5 s (a correct server needs at most the 500 ms write grace); a miss is a violation only with two identical goroutine censuses 0.5 s apart (deadlock) or, when the census keeps changing, if Stop still has not returned after 10 more seconds during which the process demonstrably got CPU (live-lock); otherwise inconclusive.",
             "liveness decided as bounded wait + stability evidence; hung children are killed by the parent",
             "DESIGN.md §4 C11"),
     "C12": ("exploration",
@@ -75,12 +75,12 @@ CHECKS = {
             "DESIGN.md §4 C13"),
     "C14": ("exploration",
             "property-based round-trip testing (rapid) of controls in both directions with three independent encoders / two independent decoders; constructor law for the Behera control",
-            "Request direction: 0..6 generated controls per message, each encoded by the harness's RFC-shape encoder, by gldap's own Encode or by go-ldap's Encode, decoded by the server's request path and compared field by field (type, criticality, page size, cookie, expire, grace, error + string, value) in order. Response direction: controls built with the exported constructors, written on Bind/SearchDone responses by a real handler, recovered by the harness's strict parser and by go-ldap's DecodeControl. Constructor: every subset/order of the three Behera options, error or at most one set and error <= 8. Exploration.",
+            "Request direction: 0..6 generated controls per message, each encoded by the harness's RFC-shape encoder, by gldap's own Encode or by go-ldap's Encode, decoded by the server's request path and compared field by field (type, criticality, page size, cookie, expire, grace, error + string, value) in order. Response direction: controls built with the exported constructors, written on Bind/SearchDone responses by a real handler, recovered by the harness's strict parser and by go-ldap's DecodeControl. Constructor: every subset/order of the three Behera options, error or at most one set and error <= 8. A further part repeats the request-direction round trip on 2..8 connections at the same time. Exploration.",
             "trusts the harness's RFC shapes (RFC 2696, draft-behera-10, draft-vchu) and go-ldap as second reader; value-less Behera and OIDs go-ldap reinterprets are excluded from the go-ldap comparison and counted; MustChange and criticality of kinds without such a field are not compared",
             "DESIGN.md §4 C14"),
     "C15": ("exploration",
-            "Go race detector over the generated concurrent workloads of C05, C06, C08, C09, C10, C12, C13, C17, C20 and a generated directory workload (Set*/getters vs. client traffic); reports attributed by first non-stdlib frame of both stacks",
-            "The -race build of the harness runs the generated scenario families of the concurrency properties plus a directory workload in which a goroutine calls every Set* method and getter while 2..8 clients are served over plain/TLS/StartTLS. Every race report is parsed by the driver; it counts iff in BOTH stacks the first frame outside the Go standard library lies in github.com/jimlambrt/gldap/... (fingerprint = unordered function pair). The detector generalises each execution to all schedules with the same synchronisation structure; code no workload executes is not covered.",
+            "Go race detector over the generated concurrent workloads of C05, C06, C08, C09, C10, C12, C13, C14, C17, C19, C20, a generated directory workload (Set*/getters vs. client traffic) and an independent-Stop workload; reports attributed by first non-stdlib frame of both stacks",
+            "The -race build of the harness runs the generated scenario families of the concurrency properties (C05 C06 C08 C09 C10 C12 C13 C14-concurrent C17 C19 C20), a directory workload in which a goroutine calls every Set* method and getter while 2..8 clients are served over plain/TLS/StartTLS, and a workload in which Stop is called from a goroutine that has no happens-before edge from the clients' traffic. Every race report is parsed by the driver; it counts iff in BOTH stacks the first frame outside the Go standard library lies in github.com/jimlambrt/gldap/... (fingerprint = unordered function pair). The detector generalises each execution to all schedules with the same synchronisation structure; code no workload executes is not covered.",
             "trusts the race detector's happens-before analysis; the harness never mutates entries after handing them to Set* and never touches what getters return, so harness-vs-gldap reports cannot come from its own accesses; other reports are listed in the evidence file but do not decide the property",
             "DESIGN.md §4 C15"),
     "C16": ("exploration",
